@@ -5,15 +5,13 @@ from ..report import Report
 
 def run(tier, seed):
     rep = Report("C06", tier, seed, "other")
-    try:
-        from .c17 import add_cons
-        add_cons(rep, "C06")
-    except Exception:  # noqa: BLE001
-        pass
+    from .c17 import add_cons
+    add_cons(rep, "C06")
     lines_universe(rep, "vf.oracles2:c06_container", tier, "MarkdownIt.parse", "quote form and list form of the law (tokens, maps, inline content, levels, references)", cfgs=["commonmark", "cm+table+strike"], wrapped=False)
     lines_universe(rep, "vf.oracles2:c06_nested", tier, "MarkdownIt.parse", "the law applied to already wrapped documents (depth 2-3)", cfgs=["commonmark"], wrapped=False)
-    rep.explanation = ("Mixed, mostly bounded: the law relates two runs of the whole block parser (a 2-safety property over all rules), which no contract within reach "
-                       "decides; the deductive part is limited to the anchored mechanisms (marker width / column bookkeeping of blockquote where proved). The law itself is "
+    rep.explanation = ("Mixed. Deductive (pyvc): the anchored mechanism of the quote form - rules_block.blockquote is verified on all paths: each quoted line's tables are moved past the marker and its optional blank with the physical-column "
+                       "invariant re-established (CONS), blkIndent is 0 and the tables are well formed when the nested block loop is re-run on the same line range, the opening token's map is [startLine, line'], and all five "
+                       "tables, lineMax, blkIndent, parentType and level are restored on exit. The law itself relates two runs of the whole block parser (a 2-safety property over all rules) and is "
                        "a relational postcondition on the real parse, checked over the tab-free line universe in quote form and list form (10 markers), nested to depth 3.")
     rep.trusted_base = STD_TRUST
     rep.assumptions = ["bounded: all tab-free newline-terminated documents of <= k lines over the 72-shape vocabulary"]
